@@ -660,6 +660,29 @@ impl Driver {
                     Err(e) => json!({"res": {"ok": false, "err": e.chars().take(120).collect::<String>(), "mut": desc, "same": same}}),
                 }
             }
+            "deser_struct" => {
+                // C11 with a specification-side oracle: JSON encoding + structured mutations (Serde.tla)
+                let dst = op["dst"].as_u64().unwrap() as usize;
+                assert!(self.ws[dst - 1].is_none(), "harness: deser_struct into live world");
+                let muts: Vec<Value> = op["muts"].as_array().unwrap().clone();
+                let s = self.slot(w);
+                let text = serde_json::to_string(&s.world).unwrap();
+                let m = mutate::apply_struct_muts(&text, &muts);
+                let r = heap::lib(|| serde_json::from_str::<Wd>(&m).map_err(|e| format!("{e}")));
+                match r {
+                    Ok(world) => {
+                        let mut world = world;
+                        let mut issued = Vec::new();
+                        for result!(id) in world.query(Query::<Views!(entity::Identifier)>::new()).iter {
+                            issued.push(id);
+                        }
+                        issued.sort_by_key(|x| brood::verif::id_parts(*x));
+                        self.ws[dst - 1] = Some(Slot { world, issued });
+                        json!({"res": {"ok": true, "same": m == text}})
+                    }
+                    Err(e) => json!({"res": {"ok": false, "same": m == text, "err": e.chars().take(120).collect::<String>()}}),
+                }
+            }
             "getmut" => {
                 let r = op["r"].as_u64().unwrap();
                 let v = op["v"].as_u64().unwrap() as u32;
